@@ -196,3 +196,28 @@ Proof.
     as (s' & off & H1 & H2 & H3 & _).
   exists s', off. auto.
 Qed.
+
+(* ------------------------------------------------------------------ tie to the lines of the file (session 5)
+   With the index that the classes build themselves (Model/LineFile.v: index_file, proved correct for C11 by
+   index_read_spec), "the line at the offset of item i" IS the i-th line of the file. *)
+From WPU Require Model.LineFile Proofs.LineFileP.
+
+Lemma take_line_same l : take_line l = LineFile.take_line l.
+Proof. induction l as [|b t IH]; simpl; [reflexivity|]. unfold LineFile.NL. rewrite IH. reflexivity. Qed.
+
+Theorem fork_reads_lines content sched :
+  let offs := map Z.to_nat (LineFile.index_file content) in
+  let s := frun true content offs finit sched in
+  forall p i line, In (p, i, line) (fs_out s) ->
+    i < length (LineFile.lines_of content) /\ line = nth i (LineFile.lines_of content) [].
+Proof.
+  intros offs s p i line Hin.
+  destruct (fork_reads content offs sched p i line Hin) as (off & Hn & ->).
+  unfold offs in Hn. rewrite nth_error_map in Hn.
+  destruct (nth_error (LineFile.index_file content) i) as [z|] eqn:Ez; [|discriminate]. injection Hn as <-.
+  assert (Hi : i < length (LineFile.index_file content)) by (apply nth_error_Some; congruence).
+  split; [unfold LineFile.lines_of, LineFile.index_file in *; rewrite map_length in *; exact Hi|].
+  destruct (LineFileP.index_read_spec content i Hi) as [Hr _].
+  rewrite (nth_error_nth _ _ 0%Z Ez) in Hr. rewrite <- Hr.
+  unfold read_at, LineFile.read_line_at. apply take_line_same.
+Qed.
